@@ -71,7 +71,7 @@ Proof. exact one_stream_per_name. Qed.
 Print Assumptions C13_one_stream_per_name.
 
 Theorem C13_print_to_open_stream : forall E s n r ps os, amem n (st_ins s) = false -> alookup n (st_outs s) = Some os ->
-  exists s' os', step E s (Print (DRedir r n) ps) = (set_outs s' (aset n os' (st_outs s')), Running) /\
+  exists s' os', step E s (Print (DRedir r n) ps) = (set_outs s' (aset n os' (st_outs s')), if os_err os' then Fail else Running) /\
     write_ostream E (add_log s (EvWrite (match os_kind os with KFile => WFile n | KCmd => WCmd n end) (concat ps))) n os (concat ps) = (s', os').
 Proof. exact print_to_open_stream. Qed.
 Print Assumptions C13_print_to_open_stream.
@@ -93,6 +93,32 @@ Theorem C13_close_status : forall E s n s' oc, good E s -> step E s (Close n) = 
 Proof. exact close_status. Qed.
 Print Assumptions C13_close_status.
 
+(* close() of a command stream ALWAYS waits for the command and reports the
+   command's own exit status -- whatever the final Flush of goawk's buffered
+   data into the command's stdin did (EPIPE because the command closed or never
+   read its stdin, a sticky earlier error, nothing to flush), whatever state
+   standard output is in, whether or not the program waited for the command's
+   marker.  The status is what waitExitCode makes of the command's wait status
+   (copy_failed can only turn a 0 into -1); the wait is on the log (EvClose). *)
+Theorem C13_close_cmd_waits_and_reports : forall E s n os s' oc,
+  alookup n (st_ins s) = None -> alookup n (st_outs s) = Some os -> os_kind os = KCmd ->
+  step E s (Close n) = (s', oc) ->
+  oc = Running /\
+  exists copy_failed rest l,
+    let code := fst (wait_result (c_exit (e_spec E n)) copy_failed) in
+    st_obs s' = ORet code :: rest /\ st_log s' = EvClose n false code :: l.
+Proof. exact close_cmd_waits_and_reports. Qed.
+Print Assumptions C13_close_cmd_waits_and_reports.
+
+(* a non-zero exit status, a signal, a core dump is reported exactly, always *)
+Theorem C13_close_cmd_status_nonzero : forall E s n os s' oc,
+  alookup n (st_ins s) = None -> alookup n (st_outs s) = Some os -> os_kind os = KCmd ->
+  c_exit (e_spec E n) <> Exited 0 ->
+  step E s (Close n) = (s', oc) ->
+  exists rest, st_obs s' = ORet (wait_code (c_exit (e_spec E n))) :: rest.
+Proof. exact close_cmd_status_nonzero. Qed.
+Print Assumptions C13_close_cmd_status_nonzero.
+
 (* [good] holds throughout every run whose standard output never fails *)
 Theorem C13_good_throughout : forall E fs ops s r, exec E (init_state fs None) ops = (s, r) -> good E s.
 Proof. intros E fs ops s r. apply exec_good. apply init_good. Qed.
@@ -109,7 +135,7 @@ Definition C13_write_failure_surfaces_full : Prop :=
   (k < length (own_stdout (st_log s)))%nat -> r = RError.
 
 Definition quiet : cmdspec :=
-  {| c_sink := None; c_append := []; c_stdout := []; c_echo := false; c_drain := true; c_exit := Exited 0 |}.
+  {| c_sink := None; c_append := []; c_stdout := []; c_echo := false; c_drain := true; c_closes := false; c_exit := Exited 0 |}.
 Definition env_of (m : omode) : env :=
   {| e_spec := fun _ => quiet; e_bad := fun _ => false; e_mode := m; e_fcap := 64 |}.
 
@@ -168,10 +194,10 @@ Print Assumptions C13_single_writer_partial.
 (* names as in harness/c13: files 1 2, "cat >> c1" = 10 -> file 3, "cat >> c2; exit 3" = 11 -> file 4,
    "printf xyz >> s2; exit 2" = 13 -> file 5, "printf SYSOUT" = 12 *)
 Definition spec0 (c : name) : cmdspec :=
-  if c =? 10 then {| c_sink := Some 3; c_append := []; c_stdout := []; c_echo := false; c_drain := true; c_exit := Exited 0 |}
-  else if c =? 11 then {| c_sink := Some 4; c_append := []; c_stdout := []; c_echo := false; c_drain := true; c_exit := Exited 3 |}
-  else if c =? 12 then {| c_sink := None; c_append := []; c_stdout := [83; 89; 83]; c_echo := false; c_drain := false; c_exit := Exited 0 |}
-  else if c =? 13 then {| c_sink := Some 5; c_append := [120; 121; 122]; c_stdout := []; c_echo := false; c_drain := false; c_exit := Exited 2 |}
+  if c =? 10 then {| c_sink := Some 3; c_append := []; c_stdout := []; c_echo := false; c_drain := true; c_closes := false; c_exit := Exited 0 |}
+  else if c =? 11 then {| c_sink := Some 4; c_append := []; c_stdout := []; c_echo := false; c_drain := true; c_closes := false; c_exit := Exited 3 |}
+  else if c =? 12 then {| c_sink := None; c_append := []; c_stdout := [83; 89; 83]; c_echo := false; c_drain := false; c_closes := false; c_exit := Exited 0 |}
+  else if c =? 13 then {| c_sink := Some 5; c_append := [120; 121; 122]; c_stdout := []; c_echo := false; c_drain := false; c_closes := false; c_exit := Exited 2 |}
   else quiet.
 Definition env0 (m : omode) : env := {| e_spec := spec0; e_bad := fun n => n =? 9; e_mode := m; e_fcap := 8 |}.
 Definition F0 (n : name) : Prop := n = 1 \/ n = 2.
@@ -200,6 +226,24 @@ Definition prog0 : list op :=
 
 Example C13_within_example : Forall (op_within F0 P0 Q0) prog0.
 Proof. unfold prog0. repeat (apply Forall_cons; [cbn; unfold F0, P0, Q0; try exact I; lia|]). apply Forall_nil. Qed.
+
+(* a command that has closed its stdin (17: exec 0<&-; : > m1 (file 6); exit 3 -- 18 the same with
+   marker 7, "late\n" on the shared stdout and exit 5): the program waits for the marker, then closes *)
+Definition spec1 (c : name) : cmdspec :=
+  if c =? 17 then {| c_sink := Some 6; c_append := []; c_stdout := []; c_echo := false; c_drain := false; c_closes := true; c_exit := Exited 3 |}
+  else if c =? 18 then {| c_sink := Some 7; c_append := []; c_stdout := [108; 97; 116; 101; 10]; c_echo := false; c_drain := false; c_closes := true; c_exit := Exited 5 |}
+  else quiet.
+Definition env1 (m : omode) : env := {| e_spec := spec1; e_bad := fun _ => false; e_mode := m; e_fcap := 8 |}.
+
+Example C13_epipe_example : forall m, In m [OsFile; Unbuf; Buf 16] ->
+  let (s, r) := run (env1 m) (init_state [] None)
+      [ Print DStdout [[97]]; Print (DRedir RPipe 18) [[120]]; AwaitFile 7; Close 18;
+        Print (DRedir RPipe 17) [[121]]; AwaitFile 6; Fflush (Some 17); Close 17; Print DStdout [[122]] ] in
+  r = RStatus 0 /\
+  sk_data (st_sink s) = [97; 108; 97; 116; 101; 10; 122] /\      (* a late\n z : the child's output is there before close returns *)
+  rev (st_obs s) = [ORet 0; ORet 5; ORet 0; ORet (-1); ORet 3] /\ (* marker read, close = 5; marker read, fflush = -1, close = 3 *)
+  st_unmod s = false.
+Proof. intros m [<- | [<- | [<- | []]]]; vm_compute; repeat split; auto. Qed.
 
 (* the run of prog0: files, stdout, close/system results, exit status; the
    same whether Output is buffered or not *)
